@@ -89,6 +89,11 @@ type output struct {
 	MaxDev       int            `json:"max_deviations"`
 	MaxDepth     int            `json:"max_struct_depth_for_deviations"`
 	RawViolation int64          `json:"raw_violations"`
+	DirtyEncodes int64          `json:"encodeinto_dirty_memory_encodes"`
+	ReuseEncodes int64          `json:"reused_encoder_encodes"`
+	ReuseParses  int64          `json:"reused_parsing_context_parses"`
+	DifferOK     int64          `json:"reuse_results_that_differ_bytewise_but_round_trip"`
+	NoEncodeInto int64          `json:"values_of_models_without_generated_encodeinto"`
 	Error        string         `json:"error,omitempty"`
 }
 
@@ -358,6 +363,7 @@ type evalOpts struct {
 	public     bool
 	thorough   bool
 	count      bool
+	reuse      bool // dirty memory, re-used encoder and parsing-context objects (reuse.go)
 }
 
 var insVal = []byte{0xde, 0xad}
@@ -441,6 +447,9 @@ func evalCase(c *caseID, o evalOpts, st *modelStat) bool {
 	}
 	if failed || !o.insertions {
 		return failed
+	}
+	if o.reuse {
+		reuseChecks(c, e)
 	}
 	segmented(c, m, e, lv, o.thorough)
 	var pts []inspoint
@@ -528,6 +537,7 @@ func main() {
 	outPath := flag.String("out", "", "result file")
 	only := flag.String("only", "", "restrict to models whose pkg.Name contains this (debugging)")
 	listOnly := flag.Bool("list", false, "print the plan sizes and exit")
+	noReuse := flag.Bool("noreuse", false, "skip the dirty-memory / re-used object checks (debugging: cost comparison)")
 	flag.Parse()
 	thorough := *tier == "thorough"
 	cfg.maxDepth = 2
@@ -593,7 +603,7 @@ func main() {
 			c.devs = []dev{p.singles[u.base][u.single]}
 		}
 		atomic.AddInt64(&nValues, 1)
-		if evalCase(c, evalOpts{insertions: true, public: true, thorough: thorough, count: true}, p.stat) {
+		if evalCase(c, evalOpts{insertions: true, public: true, thorough: thorough, count: true, reuse: !*noReuse}, p.stat) {
 			p.failed[u.base][u.single+1] = 1
 		}
 		if i%997 == 0 {
@@ -633,6 +643,7 @@ func main() {
 	out.Values, out.Pairs, out.Parses, out.Points, out.Insertions = nValues, nPairs, nParses, nPoints, nIns
 	out.SegParses, out.SegAllCuts, out.SegDirected, out.Seg3 = nSegParses, nSegAll, nSegDirected, nSeg3
 	out.SegSingle, out.SegSpan = nSegSingle, nSegSpan
+	out.DirtyEncodes, out.ReuseEncodes, out.ReuseParses, out.DifferOK, out.NoEncodeInto = nDirtyEncodes, nReuseEncodes, nReuseParses, nDifferButRoundTrip, nNoEncodeInto
 	a2, a3 := segLimits(thorough)
 	out.SegLimits = fmt.Sprintf("every 2-segment cut for encodings <= %d bytes, boundary-directed cuts (first/last 8 offsets, every element start/value-start/end of every nesting level and its two neighbours, the midpoint of every element value, every 1/16 of the length) above; every 3-segment cut pair for encodings <= %d bytes; plus the wire exactly as Encode() returned it, the all-1-byte-segments wire for encodings <= 4096 bytes, and for every opaque element value of >= 3 bytes at every nesting level 2 and 3 cuts strictly inside the value (byte-like values: all pairs <= 12 bytes, all triples <= 8 bytes; numbers and longer values: first+1/middle/last-1)", a2, a3)
 	out.Distinct = len(distinct)
